@@ -167,6 +167,18 @@ var cliDependents = map[string][]string{
 	"tls-staging": {"ServiceOptions.ACMEDirectory"},
 }
 
+// cliOffValues: what a field must hold when its flag is NOT given - only for fields whose "not asked for" value is
+// part of what the properties say (nothing the operator did not ask for is switched on; a split without --percent
+// includes nobody by percentage; no message means the built-in page's own text). Timeouts, intervals and sizes have
+// tunable defaults that no property pins, and are not listed.
+var cliOffValues = map[string]map[string]string{
+	"deploy": {"tls": "false", "buffer-requests": "false", "buffer-responses": "false", "max-request-body": "0", "max-response-body": "0",
+		"log-request-header": "[]", "log-response-header": "[]", "error-pages": "", "strip-path-prefix": "true",
+		"tls-certificate-path": "", "tls-private-key-path": ""},
+	"stop":        {"message": ""},
+	"rollout-set": {"percent": "0", "list": "[]"},
+}
+
 var cliMethod = map[string]string{"deploy": "Deploy", "pause": "Pause", "stop": "Stop", "resume": "Resume", "remove": "Remove",
 	"rollout-deploy": "RolloutDeploy", "rollout-set": "RolloutSet", "rollout-stop": "RolloutStop", "list": "List"}
 
@@ -328,6 +340,15 @@ func cliGenFocus(t *rapid.T, id string) cliPlan {
 	return p
 }
 
+func cliHasFlag(p cliPlan, name string) bool {
+	for _, f := range p.Flags {
+		if f.Name == name {
+			return true
+		}
+	}
+	return false
+}
+
 func (p cliPlan) flag(name string) string {
 	for _, f := range p.Flags {
 		if f.Name == name {
@@ -480,6 +501,20 @@ func cliRun(t *testing.T, p cliPlan) (res vfResult) {
 		}
 		if fmt.Sprint(got) != want {
 			res.failf("cli-flag:"+p.Cmd+":"+f.Name, "%s: --%s %s must arrive as %s=%s, the proxy was sent %v", desc, f.Name, f.Value, spec.field, want, got)
+			return
+		}
+	}
+	for name, off := range cliOffValues[p.Cmd] {
+		if p.flag(name) != "" || cliHasFlag(p, name) {
+			continue
+		}
+		spec := cliFlagTable[p.Cmd][name]
+		got, ok := cliField(call.Args, spec.field)
+		if !ok {
+			continue
+		}
+		if fmt.Sprint(got) != off {
+			res.failf("cli-not-asked-for:"+p.Cmd+":"+name, "%s: --%s was not given, yet the proxy was sent %s=%v (want %s)", desc, name, spec.field, got, off)
 			return
 		}
 	}
